@@ -337,7 +337,7 @@ func genCase(t *rapid.T) Case {
 	return c
 }
 
-var prop = &ev.Prop[Case]{Sub: "soundness", Quick: 40000, Thorough: 2000000, Gen: genCase, Check: check}
+var prop = &ev.Prop[Case]{Sub: "soundness", Quick: 240000, Thorough: 2000000, Gen: genCase, Check: check}
 
 func TestRegress(t *testing.T) { prop.Regress(t) }
 func TestReplay(t *testing.T)  { prop.Replay(t) }
